@@ -964,6 +964,30 @@ def r9(cx):
 # shared with C08 (the same clause serves both properties): on subshell entry only the action of an
 # existing record changes - in particular the Inherited origin of a signal that was ignored when the shell
 # started survives, so it stays untrappable in the subshell
+@RS.rule('C11.R9b', 'K-RES', 'the internal dispositions removed for execve are installed again when execve fails and the shell goes on '
+         '(an interactive shell that survives a failed `exec` must still ignore SIGTERM/SIGQUIT/SIGTSTP.. and catch SIGINT/SIGCHLD)')
+def r9b(cx):
+    F = cx.F
+    fn = 'yash_env::semantics::command::replace_current_process'
+    body = F.main_body(fn)
+    cx.fn(body.fn)
+    off = Q.find_calls(body, [re.compile(r'TrapSet::disable_internal_dispositions(_for_\w+)?$')])
+    if not off:
+        cx.site('%s: the internal dispositions are not removed here' % body.fn)
+        return
+    on = Q.find_calls(body, [re.compile(r'TrapSet::(enable_internal_dispositions?(_for_\w+)?|restore_internal_dispositions|set_internal_disposition)$')])
+    errs = [b for b, j, s in Q.find_aggregates(body, 'core::result::Result', 'Err') if s['lhs']['l'] == 0]
+    cx.require(errs, 'replace_current_process has no failure return')
+    p = Q.must_pass(body, [off[0][1]['to']], {b for b, _ in on}, goal_blocks=set(errs)) if off[0][1].get('to') is not None else [0]
+    cx.site('%s: internal dispositions removed at %s; installed again before the failure return: %s' % (body.fn, body.loc(off[0][1]), p is None and bool(on)))
+    if p is not None or not on:
+        cx.violation(fn, 'internal-dispositions-not-restored', 'replace_current_process removes the shell\'s internal dispositions before execve and '
+                     'returns the execve failure without installing them again: after a failed `exec` an interactive shell keeps running with '
+                     'SIGINT, SIGTERM, SIGQUIT and the job-control signals at their default action - `yash -i +m -c \'exec /nonexistent; kill -TERM $$; '
+                     'echo alive\'` is killed (143) where the documentation says these signals are always ignored by an interactive shell',
+                     loc=body.loc(off[0][1]))
+
+
 from rules.C08 import r3 as _c08_enter_subshell_tables
 from engine import Rule
 RS.rules.append(Rule('C11.R10', 'K-TABLE+K-GUARD', 'subshell entry touches only the action of a trap record (origin Inherited is preserved); '
